@@ -122,9 +122,10 @@ def build_all(need_probe=False, quiet=False):
     if need_probe:
         pdir = os.path.join(VERIF, "sim", "probe")
         shutil.copyfile(os.path.join(REPO, "Cargo.lock"), os.path.join(pdir, "Cargo.lock"))
-        r = sh("cargo build --offline --manifest-path %s/Cargo.toml --target-dir %s/probe" % (pdir, BUILD), env=env)
-        if r.returncode != 0:
-            raise HarnessError("probe build failed:\n" + r.stdout.decode(errors="replace")[-6000:])
+        for feat, tdir in (("", "probe"), ("--features tag_b", "probe_b")):
+            r = sh("cargo build --offline %s --manifest-path %s/Cargo.toml --target-dir %s/%s" % (feat, pdir, BUILD, tdir), env=env)
+            if r.returncode != 0:
+                raise HarnessError("probe build failed:\n" + r.stdout.decode(errors="replace")[-6000:])
     self_test()
 
 
